@@ -264,3 +264,62 @@ N('c02-binop-locals-renamed', 'C02', VMMATH,
   """        rhs = self._eval_stack.pop()
         lhs = self._eval_stack.pop()
         self._eval_stack.push(VmMath._fn_table[operator](lhs, rhs))""")
+
+# ------------------------------------------------------------------ C03
+B('c03-unwind-self-parent', 'C03', 'R03.a', CALLSTACK,
+  """        while isinstance(self._top, LoopFrame):
+            self._top = self._top.parent""",
+  """        while isinstance(self._top, LoopFrame):
+            self._top = self.parent""")
+B('c03-no-end-ctx', 'C03', 'R03.b', PARSE,
+  "        self._add_instruction(OpCode.END_CTX)\n", "")
+B('c03-param-after-jsr', 'C03', 'R03.b', PARSE,
+  """            self._add_instruction(OpCode.PARAM, param_name, Register.RESULT)
+        self._add_instruction(OpCode.JSR, routine.name)""",
+  """            self._add_instruction(OpCode.JSR, routine.name)
+            self._add_instruction(OpCode.PARAM, param_name, Register.RESULT)""")
+B('c03-end-loop-enters', 'C03', 'R03.b', MACHINE,
+  "        self._call_stack.exit_loop()", "        self._call_stack.enter_loop()")
+B('c03-exit-routine-no-pop', 'C03', 'R03.b', CALLSTACK,
+  """    def exit_routine(self) -> None:
+        self._top = self._top.parent""",
+  """    def exit_routine(self) -> None:
+        self._top = self._top""")
+B('c03-return-no-unwind', 'C03', 'R03.b', MACHINE,
+  "        self._call_stack.unwind_loops()\n", "")
+B('c03-return-pop-before-addr', 'C03', 'R03.b', MACHINE,
+  """        self._reg.pc = self._call_stack.get_return()
+        self._call_stack.exit_routine()""",
+  """        self._call_stack.exit_routine()
+        self._reg.pc = self._call_stack.get_return()""")
+B('c03-unwind-all-frames', 'C03', 'R03.b', CALLSTACK,
+  "        while isinstance(self._top, LoopFrame):\n            self._top = self._top.parent",
+  "        while isinstance(self._top, StackFrame):\n            self._top = self._top.parent")
+B('c03-loopframe-fresh-params', 'C03', 'R03.c', CALLSTACK,
+  "        self.params = parent.params\n", "")
+B('c03-loopframe-fresh-vars', 'C03', 'R03.c', CALLSTACK,
+  "        self.params = parent.params\n", "        self.params = parent.params\n        self.vars = {}\n")
+B('c03-lookup-params-direct', 'C03', 'R03.d', CALLSTACK,
+  "for place in (self.constants, self.vars, self.globals):",
+  "for place in (self.constants, self.vars, self.params, self.globals):")
+B('c03-globals-before-vars', 'C03', 'R03.e', CALLSTACK,
+  "for place in (self.constants, self.vars, self.globals):",
+  "for place in (self.constants, self.globals, self.vars):")
+B('c03-assign-globals-first', 'C03', 'R03.e', CALLSTACK,
+  """        elif index in self._top.params:
+            self._top.params[index] = value
+        elif index in self._top.globals:
+            self._top.globals[index] = value""",
+  """        elif index in self._top.globals:
+            self._top.globals[index] = value
+        elif index in self._top.params:
+            self._top.params[index] = value""")
+N('c03-frame-ifexp-order', 'C03', CALLSTACK,
+  "        self.vars = parent.vars if parent is not None else {}",
+  "        self.vars = parent.vars if parent else {}")
+N('c03-call-routine-local', 'C03', PARSE,
+  """        self._add_instruction(OpCode.JSR, routine.name)
+        if bracketed:""",
+  """        routine_name = routine.name
+        self._add_instruction(OpCode.JSR, routine_name)
+        if bracketed:""")
